@@ -72,8 +72,11 @@ def cases(tier, seed):
         for ps in grid:
             for exact in (True, False):
                 trip = [(a, b, c) for a in range(amax + 1) for b in range(bc + 1) for c in range(bc + 1) if 1 <= b + c <= bc]
-                if fam in ("Beta", "TruncNormal"):
+                if fam == "TruncNormal":
                     trip = [t for t in trip if t[0] == 0 and t[1] + t[2] <= 2]
+                if fam == "Beta":
+                    # powers of X times even trig powers reach the zero-frequency term of the formula
+                    trip = [t for t in trip if t[0] <= 1 and t[1] + t[2] <= 2]
                 out.append({"input": {"kind": "trig", "family": fam, "params": ps, "exact": exact, "triples": trip}})
                 ex = [(a, c) for a in range(amax + 1) for c in range(1, 4)]
                 if fam in ("Beta", "TruncNormal"):
